@@ -93,7 +93,7 @@ func init() {
 		ID: "C06", Title: "keyed: the key set equals what Set/Remove/Sync/refs asked for, delays included",
 		Sels: []Sel{
 			{Run: "Gkeyed", Rules: []string{"R6b", "R16"}},
-			{Run: "Gkeyed", Rules: []string{"R5b", "R12"}, Contains: []string{"remove", "AddKeyRef", "Release"}},
+			{Run: "Gkeyed", Rules: []string{"R5b", "R12"}, Contains: []string{"AddKeyRef", "Release"}, Topics: []string{"removal"}},
 			{Run: "R1", Scope: []string{"keyed"}, Rules: []string{"R1a"}, Prefixes: []string{"keyed.Keyed", "keyed.KeyedRefCount", "keyed.runningRoutine.deferRemove"}},
 		},
 		Floors:      map[string]int{"R6b": 2, "R16": 2, "R12": 4, "R5b": 2},
@@ -119,7 +119,7 @@ func init() {
 		ID: "C08", Title: "refcount: each resolved value is released exactly once, never exposed afterwards",
 		Sels: []Sel{
 			{Run: "Grefcount", Rules: []string{"R7", "R16"}},
-			{Run: "Grefcount", Rules: []string{"R12"}, Contains: []string{"removeRef", "SetContext"}},
+			{Run: "Grefcount", Rules: []string{"R12"}, Contains: []string{"SetContext"}, Topics: []string{"last-ref"}},
 			{Run: "R1", Scope: []string{"refcount"}, Rules: []string{"R1a"}, Prefixes: []string{"refcount.RefCount"}},
 		},
 		Floors:      map[string]int{"R7": 7, "R16": 1, "R12": 2, "R1a": 8},
